@@ -108,7 +108,7 @@ pub fn run(op: &str, args: &[&str]) -> Option<String> {
         }
         ("addr_dec", [h]) => {
             let b = unhex(h)?;
-            Some(dump(deserialize::<Address>(&b)))
+            Some(dump(crate::ops_codec::ds::<Address>(&b)))
         }
         ("addr_fmt", [n, t, s, v]) => {
             // built through the constructor of its type (not a struct literal)
